@@ -1227,6 +1227,9 @@ class Interp:
                 margs = [self.expr(a, env) for a in e.args]
                 mkw = self.keywords(e, env)
                 return self.method(recv, e.func.attr, margs, mkw)
+            if isinstance(recv, (ABool, bool)) and e.func.attr in (
+                    "any", "all"):
+                return recv
             if isinstance(recv, AScal):
                 for a in e.args:
                     self.expr(a, env)
